@@ -25,8 +25,10 @@ class RawReceiver(MessageReceiver):
     def __init__(self, peer):
         super().__init__(peer)
         self.payloads = []
+        self.handed = []
 
     def handle_message_data(self, message_data):
+        self.handed.append(bytes(message_data))     # every frame handed over, decodable or not
         super().handle_message_data(message_data)   # raises if undecodable
         self.payloads.append(message_data)
 
@@ -43,7 +45,30 @@ def impl_feed(chunks):
             err = "magic" if "magic" in s else ("toobig" if "MAX_MESSAGE_SIZE" in s else "handler")
             break
     ps = ",".join(hx(p) for p in r.payloads)
+    LAST_HANDED[0] = r.handed
     return "%s %s" % (ps if ps else ".", err), r.payloads, err
+
+
+LAST_HANDED = [[]]
+
+
+def reference_frames(s, limit):
+    """the harness's own reading of the wire format: the bodies of the complete frames of a stream, up to the first wrong magic
+    or over-limit length"""
+    out, pos = [], 0
+    while len(s) - pos >= 4:
+        if s[pos:pos + 4] != MAGIC:
+            return out, "magic"
+        if len(s) - pos < 8:
+            break
+        (ln,) = struct.unpack(b">I", s[pos + 4:pos + 8])
+        if ln > limit:
+            return out, "toobig"
+        if len(s) - pos - 8 < ln:
+            break
+        out.append(s[pos + 8:pos + 8 + ln])
+        pos += 8 + ln
+    return out, "none"
 
 
 def frame(payload):
@@ -335,6 +360,16 @@ def run(ctx):
         whole_line, payloads, err = impl_feed([s])
         ops.append("frames %d %s" % (MAX_MESSAGE_SIZE, hx(s)))
         impl.append(whole_line)
+        # (M) monitor: every complete well-formed frame is handed over exactly once and in order — up to and including the first
+        # one whose decoding is refused, and none after a wrong magic / over-limit length
+        ref, ref_end = reference_frames(s, MAX_MESSAGE_SIZE)
+        handed = LAST_HANDED[0]
+        expect = ref if err != "handler" else ref[:len(handed)]
+        if handed != expect or (err == "none" and ref_end != "none") or (err in ("magic", "toobig") and ref_end != err):
+            res.violations.append({"kind": "frames handed over differ from the complete well-formed frames of the stream: %d handed "
+                                           "over, %d in the stream (outcome %s, the stream ends with %s)"
+                                           % (len(handed), len(ref), err, ref_end),
+                                   "stream": s.hex(), "handed": [h.hex()[:80] for h in handed][:8]})
         res.count("stream:" + kind)
         res.count("outcome:" + err)
         if EXPECT_REFUSED_AFTER[0] is not None and (err != "toobig" or len(payloads) != EXPECT_REFUSED_AFTER[0]):
